@@ -493,8 +493,22 @@ YIELDING_OPS = {'wait', 'setflag', 'settracked', 'put', 'get', 'close', 'transfe
 NOT_PERFORMED = ('closed', 'skipped', 'notask')
 
 
+_REFERENCED = {}
+
+
 def referenced_scope_ids(program):
     """ids of the blocks that some step addresses by id (guard / watch into another block)"""
+    cached = _REFERENCED.get(id(program))
+    if cached is not None and cached[0] is program:
+        return cached[1]
+    found = _referenced_scope_ids(program)
+    if len(_REFERENCED) > 64:
+        _REFERENCED.clear()
+    _REFERENCED[id(program)] = (program, found)
+    return found
+
+
+def _referenced_scope_ids(program):
     found = set()
 
     def walk(node):
